@@ -1,7 +1,8 @@
 (* Props/C01.v -- Concurrent commits are serializable: no acknowledged write lost or duplicated.
    Statements only, each closed by `exact <lemma>`; the lemmas are assembled in Proofs/C01Statements.v from
    Proofs/CommitProofs.v (the invariant of the commit machine), CommitMetaProofs.v (composition with C15's Model/Meta.v),
-   CommitRetryProofs.v, CommitLateProofs.v and, for the lock layer, Proofs/ProcLockProofs.v.
+   CommitRetryProofs.v, C01ResentProofs.v (over Proofs/FlipFaultProofs.v, TxSettleProofs.v) and, for the lock layer,
+   Proofs/ProcLockProofs.v.
 
    WHAT IS ABSTRACTED.  Model/Commit.v holds a table's content as the list of operation ids applied to the initial
    table (`m_ops`): the protocol only looks at the OCC stamp.  What the operations MEAN is Model/Meta.v (C15, tied to
@@ -10,12 +11,12 @@
    attempt applied; `op_of` is universally quantified). *)
 From Coq Require Import ZArith List Bool Arith Sorted Lia FinFun.
 Require Import DS.Model.CommitBase DS.Gen.GenCommit DS.Model.Commit DS.Proofs.CommitGenProofs DS.Proofs.CommitProofs.
-Require Import DS.Model.CommitMeta DS.Model.CommitLate DS.Proofs.C01Statements.
+Require Import DS.Model.CommitMeta DS.Proofs.C01Statements.
 Require Import DS.Model.ProcLockBase DS.Gen.GenFileLock DS.Model.ProcLock DS.Model.ProcLockKeep.
 Require DS.Proofs.ProcLockProofs.
 Require DS.Model.Meta DS.Model.MetaSpec.
 Require Import DS.Model.FlipFault DS.Model.TxSettle.
-Require DS.Proofs.TxSettleProofs.
+Require DS.Proofs.TxSettleProofs DS.Proofs.FlipFaultProofs DS.Proofs.C01ResentProofs.
 Import ListNotations.
 Open Scope Z_scope.
 
@@ -62,22 +63,48 @@ Theorem C01_raised_not_reflected : forall c m0 kind mr evs, sound c ->
 Proof. exact c01_raised_not_reflected. Qed.
 Print Assumptions C01_raised_not_reflected.
 
-(* ASSUMPTION made visible: "a refused conditional write (412) was not applied".  Model/CommitLate.v adds the event
-   the assumption excludes -- a committer's conditional pointer write is applied by the store and the committer is
-   nevertheless told `precondition failed` (an HTTP layer that re-sends a request whose first copy landed).  The full
-   statement (a commit that reported a conflict is not reflected, whatever the HTTP layer does) is a Definition
-   (CommitLate.conflict_not_reflected_with_resent_writes); it holds for the event lists without that event
-   (`_partial`, the exact extra hypothesis is `no_late evs`) and is FALSE with it (`_refuted`, witness by vm_compute:
-   one committer, budget 1, reports a conflict and is in the table). *)
-Theorem C01_conflict_not_reflected_partial : forall c m0 kind mr evs, sound c -> no_late evs ->
-  let w := late_run c (init_world m0 kind mr) evs in
-  forall a, a_pc (w_actors w a) = PDone Conflict -> ~ In a (map snd (w_hist w)).
-Proof. exact c01_conflict_not_reflected_partial. Qed.
+(* "A commit that reported a CONFLICT is not reflected" when the store's refusal (412) can be the answer to a write it APPLIED
+   (an SDK that re-sends a conditional PUT whose first copy landed; Model/FlipFault.v XFlipResent).  The library reads the
+   pointer back on a refusal before calling it a conflict (regenerated: gen_refused_reads_back = true, verdict
+   gen_write_landed); FlipFault.v is the machine WITH that read-back (XReadBack, a step of its own), and the statement is
+   made over it.  The full statement (every schedule: `forall prompt`) is a Definition and is FALSE (`_refuted`; witness by
+   vm_compute, FlipFaultProofs.superseded_witness with committer 0's retry budget 1: committer 0's write is applied and
+   refused, committer 1 commits on top of it BEFORE the read-back, the read-back sees committer 1's file name, committer 0
+   reports the conflict -- and is in the version chain; C01ResentProofs.resent_witness_accepted).  It holds (`_partial`)
+   under the exact extra hypothesis `prompt = true`: no pointer write lands between an applied-and-refused write and its
+   read-back (FlipFault.may_land).  Schedules without refused-although-applied writes are not restricted by that
+   hypothesis (FlipFaultProofs.prompt_irrelevant_without_pending), and for them this is C01_raised_not_reflected. *)
+Definition C01_conflict_not_reflected_full : Prop := forall prompt, C01ResentProofs.conflict_not_reflected_for prompt.
+
+Theorem C01_conflict_not_reflected_partial : forall c atomic m0 kind mr xs, cas c = true ->
+  let X := xrun_p true c atomic (xinit (init_world m0 kind mr)) xs in
+  forall a, a_pc (w_actors (xw X) a) = PDone Conflict -> ~ In a (map snd (w_hist (xw X))).
+Proof. exact C01ResentProofs.conflict_not_reflected_prompt. Qed.
 Print Assumptions C01_conflict_not_reflected_partial.
 
-Theorem C01_conflict_not_reflected_refuted : ~ conflict_not_reflected_with_resent_writes.
-Proof. exact c01_conflict_not_reflected_refuted. Qed.
+Theorem C01_conflict_not_reflected_refuted : ~ C01_conflict_not_reflected_full.
+Proof. exact C01ResentProofs.conflict_not_reflected_full_refuted. Qed.
 Print Assumptions C01_conflict_not_reflected_refuted.
+
+(* non-vacuity of both: the witness schedule is a STRICT run of the unrestricted machine (every event enabled) ending with
+   committer 0 at PDone Conflict and in the chain; on the prompt machine the same schedule is refused at committer 1's
+   pointer write (index 18), which is what the hypothesis excludes -- and a refused-although-applied write whose read-back
+   is prompt ends in PDone Success, reflected once *)
+Example C01_conflict_not_reflected_nonvacuous :
+  match xrun_strict_p false C01ResentProofs.resent_cfg false
+          (xinit (init_world C01ResentProofs.resent_m0 (fun _ => KKeep) C01ResentProofs.resent_budget)) FlipFaultProofs.superseded_witness 0 with
+  | inl X => a_pc (w_actors (xw X) 0%nat) = PDone Conflict /\ map snd (w_hist (xw X)) = [0%nat; 1%nat] /\ x_misreported X = [0%nat]
+  | inr _ => False
+  end
+  /\ xrun_strict_p true C01ResentProofs.resent_cfg false
+        (xinit (init_world C01ResentProofs.resent_m0 (fun _ => KKeep) C01ResentProofs.resent_budget)) FlipFaultProofs.superseded_witness 0 = inr 18%nat
+  /\ match xrun_strict_p true C01ResentProofs.resent_cfg false
+            (xinit (init_world C01ResentProofs.resent_m0 (fun _ => KKeep) C01ResentProofs.resent_budget))
+            (firstn 13 FlipFaultProofs.superseded_witness ++ [XReadBack 0; XE {| e_actor := 0; e_kind := ERelease |}])%nat 0 with
+     | inl X => a_pc (w_actors (xw X) 0%nat) = PDone Success /\ map snd (w_hist (xw X)) = [0%nat] /\ x_misreported X = []
+     | inr _ => False
+     end.
+Proof. vm_compute. repeat split; reflexivity. Qed.
 
 (* The committed metadata VERSIONS form one linear chain: each extends its predecessor by exactly its
    committer's operation and carries a strictly larger last-updated stamp. *)
@@ -162,56 +189,67 @@ Print Assumptions C01_conflict_retried.
    the source calls on every run (Gen/GenFileLock.v; flock = the lock belongs to the open file description).
    Hypothesis on the environment, spelled out: `forks_quiescent` -- every fork of the event list copies a handle that
    is idle at that moment (the application forks its workers between commits, not from inside one; why this cannot be
-   dropped: C01_fork_while_holding_not_exclusive below -- that is fork(2), not FileLock). *)
+   dropped: C01_fork_while_holding_not_exclusive below -- that is fork(2), not FileLock).  Every theorem under that
+   hypothesis carries `_partial` in its name; the statement WITHOUT it is the Definition C01_lock_exclusive_full, refuted
+   (C01_lock_exclusive_refuted).  Not modelled: fork(2) copies EVERY handle of the forking process at once (LFork copies one
+   handle per event; the harness emits one LFork per handle the parent has used), and FileLock.__del__ (release() on a
+   garbage-collected handle; the translator refuses any primitive on the lock file there other than through release()). *)
 
 (* At most one handle believes it holds the lock -- whatever the topology, forked workers included. *)
-Theorem C01_lock_exclusive_any_topology : forall (proc : hid -> pid) evs h1 h2,
+Theorem C01_lock_exclusive_any_topology_partial : forall (proc : hid -> pid) evs h1 h2,
   forks_quiescent gen_lock_disc proc linit evs ->
   let s := lrun gen_lock_disc proc linit evs in lholds s h1 -> lholds s h2 -> h1 = h2.
 Proof. exact ProcLockProofs.gen_lock_exclusive. Qed.
-Print Assumptions C01_lock_exclusive_any_topology.
+Print Assumptions C01_lock_exclusive_any_topology_partial.
 
-(* The lock layer refines Commit.v's exclusive lock: the handle whose flag is set is exactly the kernel's owner
+(* ... and without the hypothesis it is false: a fork while the copied handle holds (fork(2) itself) *)
+Definition C01_lock_exclusive_full : Prop := C01ResentProofs.lock_exclusive_any_events.
+Theorem C01_lock_exclusive_refuted : ~ C01_lock_exclusive_full.
+Proof. exact C01ResentProofs.lock_exclusive_any_events_refuted. Qed.
+Print Assumptions C01_lock_exclusive_refuted.
+
+(* The lock layer refines Commit.v's exclusive lock (a PER-STEP statement about `lock_view`; it is not composed into a
+   simulation of Commit.run under Excl here -- the composition is the harness's trace validation of both layers on the same runs): the handle whose flag is set is exactly the kernel's owner
    (so the fence of the commit point, which reads the flag, tells the truth), and every enabled event moves that
    view the way `step` moves `w_lock`: a granted attempt only from a free lock, a refused one only while another
    handle holds, the holder's unlock frees it, a process death frees it iff the holder lived there, and nothing else
    -- no open, no close of a refused or released descriptor, in the holder's process or any other, no fork of an idle
    handle -- touches it. *)
-Theorem C01_lock_refines_excl : forall (proc : hid -> pid) evs,
+Theorem C01_lock_refines_excl_partial : forall (proc : hid -> pid) evs,
   forks_quiescent gen_lock_disc proc linit evs ->
   let s := lrun gen_lock_disc proc linit evs in
   (forall h, lholds s h <-> lock_view s = Some h)
   /\ (forall e s', fork_quiescent s e -> lstep gen_lock_disc proc s e = Some s' -> view_effect proc s e s').
 Proof. exact ProcLockProofs.gen_lock_refinement. Qed.
-Print Assumptions C01_lock_refines_excl.
+Print Assumptions C01_lock_refines_excl_partial.
 
 (* A holder cannot lose the lock to anything but its own unlock or the death of its own process: what the other
    handles do -- those sharing its process and its forked twins included -- leaves its flag set AND its description
    the kernel's owner. *)
-Theorem C01_lock_not_dropped_by_others : forall (proc : hid -> pid) evs e s' h,
+Theorem C01_lock_not_dropped_by_others_partial : forall (proc : hid -> pid) evs e s' h,
   forks_quiescent gen_lock_disc proc linit evs ->
   let s := lrun gen_lock_disc proc linit evs in
   fork_quiescent s e -> lstep gen_lock_disc proc s e = Some s' -> lholds s h -> e <> LStep h KUnlock -> e <> LKill (proc h) ->
   lholds s' h /\ lock_view s' = Some h.
 Proof. exact ProcLockProofs.gen_lock_keeps_holder. Qed.
-Print Assumptions C01_lock_not_dropped_by_others.
+Print Assumptions C01_lock_not_dropped_by_others_partial.
 
 (* WHY a forked worker is just another writer: the regenerated program opens the lock file per attempt and closes it on
    refusal and in release(), so an idle handle holds NO descriptor of the lock file; a worker forked while its parent's
    handle is idle inherits nothing -- the fork changes no descriptor table, no owner, no handle state. *)
-Theorem C01_fork_inherits_nothing : forall (proc : hid -> pid) evs,
+Theorem C01_fork_inherits_nothing_partial : forall (proc : hid -> pid) evs,
   forks_quiescent gen_lock_disc proc linit evs ->
   let s := lrun gen_lock_disc proc linit evs in
   (forall h d, l_h s h = HIdle -> ~ In (d, h) (l_open s))
   /\ (forall h h' s', l_h s h = HIdle -> lstep gen_lock_disc proc s (LFork h h') = Some s' ->
         l_open s' = l_open s /\ l_next s' = l_next s /\ l_owner s' = l_owner s /\ forall k, l_h s' k = l_h s k).
 Proof. exact ProcLockProofs.gen_lock_fork_inherits_nothing. Qed.
-Print Assumptions C01_fork_inherits_nothing.
+Print Assumptions C01_fork_inherits_nothing_partial.
 
 (* The handle program of the model is, primitive for primitive, the skeleton the translator regenerates from
    FileLock._try_acquire_once / FileLock.release; the discipline is the description-owned one; the fence is the
    flag; and the granted path is enabled, and ends holding, from every reachable state with a free lock. *)
-Theorem C01_lock_skeleton_regenerated :
+Theorem C01_lock_skeleton_regenerated_partial :
   gen_lock_disc = ByDescription /\ gen_fence_is_flag = true
   /\ flat_map lactions_of attempt_granted_events = gen_attempt_granted
   /\ flat_map lactions_of attempt_refused_events = gen_attempt_refused
@@ -222,7 +260,7 @@ Theorem C01_lock_skeleton_regenerated :
         exists s', lrun_strict gen_lock_disc proc s (map (LStep h) attempt_granted_events) 0 = inl s'
                    /\ lholds s' h /\ lock_view s' = Some h).
 Proof. exact ProcLockProofs.gen_lock_skeleton. Qed.
-Print Assumptions C01_lock_skeleton_regenerated.
+Print Assumptions C01_lock_skeleton_regenerated_partial.
 
 (* Non-vacuity of the fork hypotheses: a parent (handle 0, process 0) uses its lock once, then forks two workers
    (handles 1, 2 in processes 1, 2); worker 1 takes the lock, the parent and worker 2 are refused, worker 1 releases,
@@ -379,28 +417,40 @@ Proof. vm_compute. repeat split. Qed.
 (* ------------------------------------------------------------------------------------------------------------------------
    The commit-point write FAILS (storage fault: not applied, or applied with the response lost) and the transaction decides,
    OUTSIDE the metadata lock, what to tell its caller (Model/TxSettle.v over Model/FlipFault.v; conditional-write storage).
-   Every schedule: any number of committers, faults at anybody's pointer write, other committers running to completion between
+   Every schedule of that machine (its two restrictions are spelled out below): any number of committers, faults at anybody's pointer write, other committers running to completion between
    the fault, the lock release and the transaction's decision (TSettle is a step of its own).
 
-   For EVERY settle policy that never contradicts the published history: a commit reported as a definite failure is not
-   reflected in the version chain, a commit reported as committed is, and no data file of a reflected commit is deleted. *)
-Theorem C01_settle_outside_lock_sound : forall pol c atomic m0 kind mr ts, cas c = true -> sound_policy pol ->
+   STABILITY of a settle verdict.  `sound_policy pol` says the verdict agrees with the ghost `in_history` AT THE SETTLE STEP
+   (a policy that looks only at the tip and is sound answers VUnknown always; the oracle policy `fun _ inh => if inh then VLanded
+   else VNotLanded` is sound).  What is proved is that such a verdict STAYS true for the rest of the run: a commit reported as
+   a definite failure is not reflected later either, one reported committed is, no data file of a reflected commit is deleted.
+   `_partial`: TWO restrictions of the machine are hypotheses of this statement, not facts about the store:
+     (1) PROMPT machine (tstep runs FlipFault.xstep_p true): no pointer write lands between an applied-and-refused write and
+         its read-back;
+     (2) NO LANDING AFTER UNWIND: a request that lands after its client gave up is XFlipErr placed BEFORE the sender's XUnwind;
+         a PUT that lands after the transaction settled is not an event of Model/TxSettle.v.  With such an event every policy
+         that ever answers VNotLanded on conditional-write storage would be unsafe (it deletes the files, then the write
+         lands): the reason the source's arm answers VUnknown (next theorem).  Those landings are run against the real code only
+         (harness: fault mode "inflight"). *)
+Theorem C01_settle_stable_prompt_no_late_landing_partial : forall pol c atomic m0 kind mr ts, cas c = true -> sound_policy pol ->
   let T := trun pol c atomic (tinit (init_world m0 kind mr)) ts in
   forall a, let h := map snd (w_hist (xw (t_x T))) in
     (t_rep T a = Some RepFailed -> ~ In a h)
     /\ (t_rep T a = Some RepSuccess -> In a h)
     /\ (In a (t_deleted T) -> ~ In a h).
 Proof. exact TxSettleProofs.settle_sound. Qed.
-Print Assumptions C01_settle_outside_lock_sound.
+Print Assumptions C01_settle_stable_prompt_no_late_landing_partial.
 
 (* The policy of the SOURCE is read off the regenerated handler table (gen_tx_on over gen_flip_exn): on conditional-write
-   storage the arm for a failed commit-point write asserts nothing (the ambiguous error is re-raised, files kept) -- so the
-   statement above holds for the regenerated program, and it never deletes a file on this path. *)
-Theorem C01_regenerated_settle_sound : forall c atomic last m0 kind mr ts, cas c = true ->
+   storage (cas = true; the local DirectorySyncError and non-CAS S3 arms have no settle statement) the arm for a failed
+   commit-point write ASSERTS NOTHING: whatever the schedule, no caller of a failed commit-point write is ever told "committed"
+   or "definitely failed" -- only "ambiguous" (or nothing yet) -- and no data file is deleted on this path.  (So
+   `settle_consistent` holds of it trivially -- its premises never fire; that is what this theorem says, no more.) *)
+Theorem C01_regenerated_settle_never_definite : forall c atomic last m0 kind mr ts, cas c = true ->
   let T := trun (gen_policy (cas c) atomic last) c atomic (tinit (init_world m0 kind mr)) ts in
-  settle_consistent T /\ t_deleted T = [].
-Proof. exact TxSettleProofs.regenerated_settle_sound. Qed.
-Print Assumptions C01_regenerated_settle_sound.
+  (forall a, t_rep T a = None \/ t_rep T a = Some RepAmbiguous) /\ t_deleted T = [].
+Proof. exact C01ResentProofs.regenerated_settle_never_definite. Qed.
+Print Assumptions C01_regenerated_settle_never_definite.
 
 (* "Is the CURRENT version ours?" is not such a policy: with it the statement is false.  Witness (a strict run, every event
    enabled): committer 0's conditional write is applied, the response lost, the lock released; committer 1 commits on top of the
